@@ -36,7 +36,7 @@ def report(ck, results, prop, what):
     for job, b, tcl, fcl in results:
         key = (what, job["N"], job["m"], tuple(job["list"] or []), job["conn"], job["kind"], job["full"], str(job["comps"]), str(job.get("meas")))
         ck.count(key, True)
-        small = {k: job[k] for k in ("N", "m", "list", "conn", "kind", "full", "comps", "meas")}
+        small = {k: job[k] for k in ("N", "m", "list", "conn", "kind", "full", "comps", "meas", "argform") if k in job}
         if b.get("exc"):
             ck.violation(f"{what} {key}", f"{what}: tomography API raises {b['exc']} for {small}", {"job": small})
             continue
@@ -47,7 +47,7 @@ def report(ck, results, prop, what):
         if not b["dm_ok"]:
             bad = bad | {"density-matrix"}
         if bad:
-            ck.violation(f"{what} {key}", f"{what}: N={job['N']} qubits={job['list']} conn={job['conn']} kind={job['kind']} full={job['full']} fails {sorted(bad)}", {"job": small, "clauses": sorted(bad)})
+            ck.violation(f"{what} {key}", f"{what}: N={job['N']} qubits={job['list']} (arguments held as: {job.get('argform', 'list')}) conn={job['conn']} kind={job['kind']} full={job['full']} fails {sorted(bad)}", {"job": small, "clauses": sorted(bad)})
         else:
             ck.accepted(1 + len(fcl))
 
@@ -104,6 +104,13 @@ def run(tier):
             for _ in range(1 if quick else 6):   # mixtures
                 comps = [[rng.randrange(1, 6), rng.choice(progs)] for _ in range(rng.randrange(2, 4))]
                 jobs.append({"N": n, "m": n, "list": None, "conn": conn, "comps": comps, "kind": "full", "meas": None, "full": True, "dm": n <= 4})
+    for k, j in enumerate(jobs):      # the documented explicit form of "all qubits": every qubit listed, in another order
+        if k % 6 == 5 and j["list"] is None:
+            lst = list(range(j["N"]))
+            while lst == sorted(lst):
+                rng.shuffle(lst)
+            j["list"] = lst
+            j["full"] = rng.random() < 0.7
     results = tomo.run_scenarios(ck, jobs, files, rng, "C10")
     report(ck, results, "C10", "tomography")
     ck.cov["scenarios"] = len(jobs)
